@@ -1,8 +1,142 @@
-"""C16 -- contracts (proof part under construction) + bounded stand-in."""
-from pyvc.runner import Bounded
+"""C16 -- htpasswd/htdigest files stay a faithful user database under any edit history."""
+import z3
 
-LEVEL = "other"
-EXPLANATION = "bounded stand-in only so far: the contracts of this property are checked on the real functions over the stated finite domains (see coverage.bounded); nothing is counted as proved."
-ASSUMPTIONS = []
-CONTRACTS = []
-BOUNDED = [Bounded("c16", "harness/c16.py", descr="see harness docstring", timeout=900)]
+from contracts.trusted import COMMON, fresh_str
+from pyvc.contract import Bool, Bytes, Const, Contract, Int, NoneT, Obj, Str, Union
+from pyvc.runner import Bounded
+from pyvc.symexec import RaiseSig, exc_class
+from pyvc.values import SBool, SDict, SExc, SInt, SMap, SObj, SStr, SStub
+
+LEVEL = "proof"
+A = "passlib/apache.py"
+EXPLANATION = (
+    "Representation invariant of _CommonFile (ghost view, skolemised): every key has at most one (_RECORD, key) entry in "
+    "_source and every current key has exactly one. _set_record, HtpasswdFile.set_hash/delete and HtdigestFile.delete are "
+    "verified from their real source to preserve it for an arbitrary key (maps as arrays, the _source list as a ghost "
+    "multiset); _encode_field is verified to refuse separators, control characters and more than 255 bytes. The loops of "
+    "_load_lines / _iter_lines (symbolic-length lists) and whole operation sequences are covered by the bounded stand-in."
+)
+ASSUMPTIONS = [
+    "_source is abstracted by the ghost multiset of its (_RECORD, key) entries; order of lines is checked by the bounded stand-in only",
+    "_autosave() does not change _records/_source (it calls save(), which only reads them)",
+]
+
+tokens_f = None
+
+
+def _file_setup(it, args):
+    """self with _records: symbolic map bytes->bytes, _source: ghost multiset"""
+    dom = z3.Array("records.dom", z3.StringSort(), z3.BoolSort())
+    arr = z3.Array("records.val", z3.StringSort(), z3.StringSort())
+    records = SMap(dom, arr, z3.StringSort(), lambda e: SStr(e, "bytes"), "records")
+    tokens = {"arr": z3.Array("tokens", z3.StringSort(), z3.IntSort())}
+
+    def append(it2, a, k):
+        tag, key = it2.unpack(a[0], 2)
+        kz = it2.to_z3(key)
+        tokens["arr"] = z3.Store(tokens["arr"], kz, z3.Select(tokens["arr"], kz) + 1)
+        it2.run.writes.append(("_source", "append", it2.lineno))
+
+    def contains(it2, a, k):
+        tag, key = it2.unpack(a[0], 2)
+        return SBool(z3.Select(tokens["arr"], it2.to_z3(key)) > 0)
+
+    source = SObj("_source", fields={"append": SStub(append, "_source.append"), "__contains__": SStub(contains, "(_RECORD, key) in _source")})
+    self = args["self"]
+    self.fields["_records"] = records
+    self.fields["_source"] = source
+    self.fields["_autosave"] = SStub(lambda i, a, k: None, "_autosave", trusted="save() only reads the state")
+    self.fields["encoding"] = "utf-8"
+    q = z3.String("q")  # arbitrary key (skolem)
+    it.run.ghost.update({"records": records, "tokens": tokens, "q": q, "dom0": dom, "arr0": arr, "tok0": tokens["arr"]})
+
+    def inv_at(d, t, k):
+        c = z3.Select(t, k)
+        return z3.And(c >= 0, c <= 1, z3.Implies(z3.Select(d, k), c == 1))
+
+    it.run.ghost["inv_at"] = inv_at
+    # precondition: the invariant holds for every key; instantiated at the skolem key (and, below, at the touched key)
+    it.run.assume(inv_at(dom, tokens["arr"], q))
+    return None
+
+
+def _assume_inv_at(name):
+    def req(it, env):
+        g = it.run.ghost
+        k = it.to_z3(env.lookup(name))
+        return g["inv_at"](g["dom0"], g["tok0"], k)
+
+    return req
+
+
+def _inv_post(it, env):
+    g = it.run.ghost
+    return g["inv_at"](g["records"].dom, g["tokens"]["arr"], g["q"])
+
+
+def _others_untouched(keyname):
+    def post(it, env):
+        g = it.run.ghost
+        k = it.to_z3(env.lookup(keyname))
+        q = g["q"]
+        return z3.Implies(q != k, z3.And(z3.Select(g["records"].dom, q) == z3.Select(g["dom0"], q), z3.Select(g["records"].arr, q) == z3.Select(g["arr0"], q),
+                                          z3.Select(g["tokens"]["arr"], q) == z3.Select(g["tok0"], q)))
+
+    return post
+
+
+CONTRACTS = [
+    Contract(
+        "_CommonFile._set_record", f"{A}::_CommonFile._set_record",
+        params={"self": Obj(), "key": Bytes(), "value": Bytes()},
+        setup=_file_setup,
+        requires=[_assume_inv_at("key")],
+        globals={"_RECORD": "record"},
+        ensures=[
+            ("invariant preserved for every key: at most one source entry, exactly one for a current key", _inv_post),
+            ("the key now maps to the value", lambda it, env: z3.And(z3.Select(it.run.ghost["records"].dom, it.to_z3(env.lookup("key"))), z3.Select(it.run.ghost["records"].arr, it.to_z3(env.lookup("key"))) == it.to_z3(env.lookup("value")))),
+            ("returns whether the key was already present", lambda it, env: it.to_zbool(it.truth(env.lookup("result"))) == z3.Select(it.run.ghost["dom0"], it.to_z3(env.lookup("key")))),
+            ("every other key keeps its record and its source entry", _others_untouched("key")),
+        ],
+        descr="any map, any source multiset satisfying the invariant, any key (incl. deleted-then-re-added)",
+    ),
+    Contract(
+        "HtpasswdFile.delete", f"{A}::HtpasswdFile.delete",
+        params={"self": Obj(), "user": Bytes()},
+        setup=lambda it, args: (_file_setup(it, args), args["self"].fields.__setitem__("_encode_user", SStub(lambda i, a, k: a[0], "_encode_user (identity on valid bytes)")))[0],
+        requires=[_assume_inv_at("user")],
+        ensures=[
+            ("invariant preserved for every key", _inv_post),
+            ("the user is gone", lambda it, env: z3.Not(z3.Select(it.run.ghost["records"].dom, it.to_z3(env.lookup("user"))))),
+            ("True iff the user existed", lambda it, env: it.to_zbool(it.truth(env.lookup("result"))) == z3.Select(it.run.ghost["dom0"], it.to_z3(env.lookup("user")))),
+            ("every other key keeps its record and its source entry", _others_untouched("user")),
+        ],
+    ),
+    Contract(
+        "HtpasswdFile.set_hash", f"{A}::HtpasswdFile.set_hash",
+        params={"self": Obj(cls=(A, "HtpasswdFile")), "user": Bytes(), "hash": Bytes()},
+        setup=lambda it, args: (_file_setup(it, args), args["self"].fields.__setitem__("_encode_user", SStub(lambda i, a, k: a[0], "_encode_user (identity on valid bytes)")))[0],
+        requires=[_assume_inv_at("user")],
+        globals={"_RECORD": "record"},
+        ensures=[("invariant preserved for every key", _inv_post), ("every other key keeps its record and its source entry", _others_untouched("user"))],
+    ),
+    Contract(
+        "_CommonFile._encode_field", f"{A}::_CommonFile._encode_field",
+        params={"self": Obj(fields={"encoding": "utf-8"}), "value": Union(Bytes(), NoneT(), Int()), "param": Const("user")},
+        raises={"TypeError": "not isinstance(value, bytes)",
+                "ValueError": "isinstance(value, bytes) and (len(value) > 255 or b':' in value or b'\\n' in value or b'\\r' in value or b'\\t' in value or b'\\x00' in value)"},
+        ensures=[("accepted names are at most 255 bytes and free of separators / control characters",
+                  "len(result) <= 255 and b':' not in result and b'\\n' not in result and b'\\r' not in result and b'\\t' not in result and b'\\x00' not in result and result == value")],
+        descr="every byte string / wrong types",
+    ),
+]
+
+BOUNDED = [Bounded("c16", "harness/c16.py", descr="operation sequences over small alphabets vs an independent reader", timeout=900)]
+
+MUTANTS = [
+    ("_set_record appends a second source entry for a deleted-then-re-added key", A, "        if not existing and (_RECORD, key) not in self._source:\n", "        if not existing:\n", "refute"),
+    ("_set_record never appends", A, "        if not existing and (_RECORD, key) not in self._source:\n", "        if existing and (_RECORD, key) not in self._source:\n", "refute"),
+    ("delete reports the wrong outcome", A, "        try:\n            del self._records[self._encode_user(user)]\n        except KeyError:\n            return False\n        self._autosave()\n        return True\n\n    def check_password(self, user, password):", "        try:\n            del self._records[self._encode_user(user)]\n        except KeyError:\n            return True\n        self._autosave()\n        return True\n\n    def check_password(self, user, password):", "refute"),
+    ("_encode_field allows 256 bytes", A, "        if len(value) > 255:\n", "        if len(value) > 256:\n", "refute"),
+    ("_encode_field forgets the tab", A, '_INVALID_FIELD_CHARS = b":\\n\\r\\t\\x00"', '_INVALID_FIELD_CHARS = b":\\n\\r\\x00"', "refute"),
+]
